@@ -4,6 +4,7 @@ import (
 	"fmt"
 	"go/token"
 	"go/types"
+	"math/bits"
 	"os"
 	"runtime"
 	"strings"
@@ -192,6 +193,7 @@ type Machine struct {
 	curFn    *ssa.Function
 	ForkSites bool
 	race      raceState
+	envPool   [24][][]value
 }
 
 func NewProgram(prog *ssa.Program, repoPath string) *Program {
@@ -210,6 +212,10 @@ func NewProgram(prog *ssa.Program, repoPath string) *Program {
 	initReflect(p)
 	return p
 }
+
+// RegStat, when non-nil, accumulates registers allocated per function (debugging).
+var RegStat map[string]int64
+var regStatMu sync.Mutex
 
 func NewMachine(p *Program) *Machine {
 	m := &Machine{P: p, globals: map[*ssa.Global]*value{}, MaxSteps: 50_000_000, MaxDepth: 3000,
@@ -440,7 +446,12 @@ func (m *Machine) callSSA(caller *frame, callpos token.Pos, fn *ssa.Function, ar
 	if m.CallsByFn != nil {
 		m.CallsByFn[fn.String()]++
 	}
-	fr.env = make([]value, info.nregs)
+	if RegStat != nil {
+		regStatMu.Lock()
+		RegStat[fn.String()] += int64(info.nregs)
+		regStatMu.Unlock()
+	}
+	fr.env = m.getEnv(info.nregs)
 	fr.block = fn.Blocks[0]
 	fr.locals = make([]value, len(fn.Locals))
 	for i, l := range fn.Locals {
@@ -456,7 +467,39 @@ func (m *Machine) callSSA(caller *frame, callpos token.Pos, fn *ssa.Function, ar
 	for fr.block != nil {
 		fr.runFrame()
 	}
+	// the registers die with the call (closures copy their bindings, locals live in fr.locals)
+	m.putEnv(fr.env)
+	fr.env = nil
 	return fr.result
+}
+
+// Register files are recycled by size class: allocating and collecting one per
+// call dominated the profile of Do-level harnesses.
+func (m *Machine) getEnv(n int) []value {
+	if n == 0 {
+		return nil
+	}
+	c := bits.Len(uint(n - 1))
+	if c < len(m.envPool) {
+		if l := m.envPool[c]; len(l) > 0 {
+			e := l[len(l)-1]
+			m.envPool[c] = l[:len(l)-1]
+			return e[:n]
+		}
+	}
+	return make([]value, n, 1<<c)
+}
+
+func (m *Machine) putEnv(e []value) {
+	if cap(e) == 0 {
+		return
+	}
+	c := bits.Len(uint(cap(e) - 1))
+	if c >= len(m.envPool) || len(m.envPool[c]) >= 64 {
+		return
+	}
+	clear(e)
+	m.envPool[c] = append(m.envPool[c], e)
 }
 
 // runFrame executes instructions until a return, a panic, or a recovered panic.
